@@ -315,3 +315,8 @@ pub fn read_replay(path: &str) -> serde_json::Value {
     let txt = std::fs::read_to_string(path).or_else(|_| std::fs::read_to_string(format!("../{path}"))).expect("replay file not found");
     serde_json::from_str(&txt).expect("replay file is not json")
 }
+
+/// record a monitor failure, but keep at most 60 of them per run (one is enough for a VIOLATION; a broken tree can produce thousands, each with its replay)
+pub fn mfail(out: &mut crate::common::Out, property: &str, what: &str, replay: serde_json::Value) {
+    if out.monitor_failures.len() < 60 { out.monitor_fail(property, what, replay); }
+}
